@@ -4,6 +4,7 @@ CONSTANTS
   Amts = {1000}
   IncFees = {FALSE}
   NChanges = {1}
+  QuietW2 = FALSE
   Srcs = {""}
   ActIs = {"a0"}
   ActFs = {"a0"}
